@@ -4,6 +4,7 @@ import (
 	"fmt"
 	"math"
 	"runtime"
+	"sort"
 	"sync"
 
 	"github.com/EliCDavis/polyform/math/sample"
@@ -681,9 +682,33 @@ func (d *MarchingCanvas) marchFloat1BlockPosition(
 		})
 }
 
+// sortedBlockPositions lists the blocks of a section in a fixed (x, y, z)
+// order. The block meshes are merged in this order by the sequential and by
+// the parallel marcher: a vertex on the face between two blocks is computed by
+// both of them and may differ in the last bit, and the weld keeps the first one
+// it meets. Merging in map order (sequential) or in the order the workers
+// finish (parallel) made the result differ from call to call.
+func sortedBlockPositions(section *marchingSection) []modeling.VectorInt {
+	positions := make([]modeling.VectorInt, 0, len(section.positions))
+	for blockPosition := range section.positions {
+		positions = append(positions, blockPosition)
+	}
+	sort.Slice(positions, func(i, j int) bool {
+		a, b := positions[i], positions[j]
+		if a.X != b.X {
+			return a.X < b.X
+		}
+		if a.Y != b.Y {
+			return a.Y < b.Y
+		}
+		return a.Z < b.Z
+	})
+	return positions
+}
+
 func (d MarchingCanvas) marchFloat1(cutoff float64, meshAttribute string, section *marchingSection) modeling.Mesh {
 	finalMesh := modeling.EmptyMesh(modeling.TriangleTopology)
-	for blockPosition := range section.positions {
+	for _, blockPosition := range sortedBlockPositions(section) {
 		finalMesh = finalMesh.Append(d.marchFloat1BlockPosition(cutoff, meshAttribute, section, blockPosition))
 	}
 	return finalMesh
@@ -696,26 +721,43 @@ func (d MarchingCanvas) marchFloat1Parallel(cutoff float64, meshAttribute string
 		return d.marchFloat1(cutoff, meshAttribute, section)
 	}
 
-	numJobs := len(section.positions)
-	jobs := make(chan modeling.VectorInt, numJobs)
-	results := make(chan modeling.Mesh, numJobs)
+	type blockResult struct {
+		job  int
+		mesh modeling.Mesh
+	}
+
+	blockPositions := sortedBlockPositions(section)
+	numJobs := len(blockPositions)
+	jobs := make(chan int, numJobs)
+	results := make(chan blockResult, numJobs)
 
 	for w := 0; w < workers; w++ {
-		go func(jobs <-chan modeling.VectorInt, results chan<- modeling.Mesh) {
+		go func(jobs <-chan int, results chan<- blockResult) {
 			for j := range jobs {
-				results <- d.marchFloat1BlockPosition(cutoff, meshAttribute, section, j)
+				results <- blockResult{
+					job:  j,
+					mesh: d.marchFloat1BlockPosition(cutoff, meshAttribute, section, blockPositions[j]),
+				}
 			}
 		}(jobs, results)
 	}
 
-	for blockPosition := range section.positions {
-		jobs <- blockPosition
+	for j := range blockPositions {
+		jobs <- j
 	}
 	close(jobs)
 
-	finalMesh := modeling.EmptyMesh(modeling.TriangleTopology)
+	// merge in block order, not in the order the workers finish (see
+	// sortedBlockPositions)
+	blockMeshes := make([]modeling.Mesh, numJobs)
 	for i := 0; i < numJobs; i++ {
-		finalMesh = finalMesh.Append(<-results)
+		result := <-results
+		blockMeshes[result.job] = result.mesh
+	}
+
+	finalMesh := modeling.EmptyMesh(modeling.TriangleTopology)
+	for _, blockMesh := range blockMeshes {
+		finalMesh = finalMesh.Append(blockMesh)
 	}
 
 	return finalMesh
